@@ -16,7 +16,7 @@
 //verif:replace (*github.com/celestiaorg/celestia-node/store/file.codecCache).Encoder github.com/celestiaorg/celestia-node/store/file.verifEncoder
 //verif:replace (*github.com/celestiaorg/celestia-app/v9/pkg/da.DataAvailabilityHeader).Hash github.com/celestiaorg/celestia-node/store/file.verifDAHHash
 //verif:noop github.com/ipfs/go-log/v2 go.uber.org/zap
-//verif:bound EDS files: ODS width 2 (EDS 4x4, 512-byte shares with symbolic namespace-independent payload), 1..4 filled shares followed by tail padding (every amount from none to all-but-one), written as ODS only or ODS+Q4, read back through ODS / ODSQ4 with the Q4 file present or removed, with the in-memory square cache cold, warm or disabled, behind the bounds-validating wrapper; axis index and sample coordinates ARBITRARY symbolic ints (in and out of bounds)
+//verif:bound EDS files: ODS width 2 (thorough: also 4) (EDS 4x4 / 8x8, 512-byte shares with symbolic namespace-independent payload), 1..4 filled shares followed by tail padding (every amount from none to all-but-one), written as ODS only or ODS+Q4, read back through ODS / ODSQ4 with the Q4 file present or removed, with the in-memory square cache cold, warm or disabled, behind the bounds-validating wrapper; axis index and sample coordinates ARBITRARY symbolic ints (in and out of bounds)
 //verif:assume file system = package veriffs model; the Reed-Solomon codec (rsmt2d codec, klauspost ReconstructSome) is the ideal injective codec of the C01 model; binary.Read/Write of the one-byte header version is a direct byte copy (reflection is outside the interpreter); DAH.Hash is an arbitrary 32-byte digest
 //verif:outside widths above 2, the empty block (store level), the proof-caching accessor and store caches, proofs for samples / namespace data built from the axis read here (C01/C02: honest containers verify)
 package file
@@ -98,7 +98,7 @@ func (verifRS) ReconstructSome(shards [][]byte, required []bool) error {
 
 func verifEncoder(c *codecCache, ln int) (reedsolomon.Encoder, error) { return verifRS{}, nil }
 
-const verifK = 2 // ODS width
+var verifK = 2 // ODS width (thorough: also 4)
 
 var verifNs = libshare.MustNewV0Namespace([]byte("c05-ns"))
 
@@ -188,6 +188,10 @@ func VerifH_C05_FilesReturnWhatWasWritten() {
 	nd.Assume(veriffs.Mkdir("/s", 0o755) == nil)
 	verifHash32 = make([]byte, 32)
 	copy(verifHash32, nd.Bytes(8, "datahash"))
+	verifK = 2
+	if nd.Thorough() {
+		verifK = 2 << nd.Choice(2, "odsLog")
+	}
 	k := verifK
 	filled := 1 + nd.Choice(k*k, "filled")
 	if filled == k*k {
